@@ -15,6 +15,28 @@
 #include <sys/stat.h>
 /* struct sockaddr_un comes from <linux/un.h>, included by ctl.c */
 
+/* ------------------------------------------------------------------ strings without quantifiers */
+#define XV_ROOM(p) ((size_t)(__CPROVER_OBJECT_SIZE(p) - (size_t)__CPROVER_POINTER_OFFSET(p)))
+#define XV_Z1(p, k) ((size_t)(k) < XV_ROOM(p) && (p)[k] == 0)
+#define XV_Z4(p, k) (XV_Z1(p, k) || XV_Z1(p, (k) + 1) || XV_Z1(p, (k) + 2) || XV_Z1(p, (k) + 3))
+#define XV_Z16(p, k) (XV_Z4(p, k) || XV_Z4(p, (k) + 4) || XV_Z4(p, (k) + 8) || XV_Z4(p, (k) + 12))
+/* p is a C string of fewer than 64 characters whose terminator lies inside the object p points into */
+#define XV_CSTR64(p) (XV_Z16(p, 0) || XV_Z16(p, 16) || XV_Z16(p, 32) || XV_Z16(p, 48))
+#define XV_N1(p, k, n) ((size_t)(k) < (n) ==> (p)[k] != 0)
+#define XV_N4(p, k, n) (XV_N1(p, k, n) && XV_N1(p, (k) + 1, n) && XV_N1(p, (k) + 2, n) && XV_N1(p, (k) + 3, n))
+#define XV_N16(p, k, n) (XV_N4(p, k, n) && XV_N4(p, (k) + 4, n) && XV_N4(p, (k) + 8, n) && XV_N4(p, (k) + 12, n))
+/* no NUL among the first n (< 96) characters of p */
+#define XV_NONUL96(p, n) (XV_N16(p, 0, n) && XV_N16(p, 16, n) && XV_N16(p, 32, n) && XV_N16(p, 48, n) && XV_N16(p, 64, n) && XV_N16(p, 80, n))
+/* p is the string "tls.key" (XCM_ATTR_TLS_KEY) */
+#define XV_IS_TLS_KEY(p) ((p)[0] == 't' && (p)[1] == 'l' && (p)[2] == 's' && (p)[3] == '.' && (p)[4] == 'k' && (p)[5] == 'e' && (p)[6] == 'y' && (p)[7] == 0)
+
+#ifndef XV_CTL_NAME_OBJ
+#define XV_CTL_NAME_OBJ 96      /* attribute names of 0..95 characters are explored (the wire field holds 63) */
+#endif
+#ifndef XV_CTL_LEN_MAX
+#define XV_CTL_LEN_MAX 1024     /* attribute values of 0..1024 bytes are explored (the wire field holds 512)  */
+#endif
+
 /* ------------------------------------------------------------------ ghost state of the unit
  * (havocked by xv_ctl_ghost_havoc() at the start of every harness; C would zero-initialise it) */
 
@@ -71,7 +93,18 @@ long xv_ctl_get_calls;
 long xv_ctl_all_calls;         /* calls of xcm_attr_get_all */
 size_t xv_ctl_all_n;           /* number of REPORTABLE attributes called back so far (name < 64, value <= 512, not tls.key) */
 size_t xv_ctl_i;               /* ghost index (never assigned): an ARBITRARY position in the sequence of reportable attributes */
-int xv_ctl_i_type; size_t xv_ctl_i_len; uint8_t xv_ctl_i_val_j; char xv_ctl_i_name_j; /* the xv_ctl_i-th reportable attribute */
+int xv_ctl_i_type; size_t xv_ctl_i_len; uint8_t xv_ctl_i_val_mc; char xv_ctl_i_name_j; /* the xv_ctl_i-th reportable attribute:
+                                  type, length, value byte at offset xv_mc (the offset the memcpy model tracks), name byte at xv_ctl_j */
+size_t xv_ctl_i_namelen;
+
+/* add_attr (contract in contracts/ctl.h): ghost constants bound to entry values */
+size_t xv_ctl_g_len0;      /* attrs_len on entry */
+size_t xv_ctl_g_namelen;   /* strlen(attr_name)  */
+size_t xv_ctl_g_len;       /* len                */
+#define AA_CFM(d) ((struct ctl_proto_get_all_attr_cfm *)(d))
+#define AA_ENTRY(d) (AA_CFM(d)->attrs[xv_ctl_g_len0])
+#define AA_REPORTABLE(name, namelen, len) (!XV_IS_TLS_KEY(name) && (namelen) < XCM_ATTR_NAME_MAX && (len) <= CTL_ATTR_VALUE_MAX)
+#define AA_ADDS(name, namelen, len) (AA_REPORTABLE(name, namelen, len) && xv_ctl_g_len0 < CTL_PROTO_MAX_ATTRS)
 
 #ifdef XV_CBMC
 char nondet_char(void);
@@ -93,7 +126,7 @@ static inline void xv_ctl_ghost_havoc(void)
     xv_ctl_get_rv = nondet_int(); xv_ctl_get_errno = nondet_int(); xv_ctl_get_type = nondet_int(); xv_ctl_get_j = nondet_uchar();
     xv_ctl_get_calls = nondet_long();
     xv_ctl_all_calls = nondet_long(); xv_ctl_all_n = nondet_size_t(); xv_ctl_i = nondet_size_t();
-    xv_ctl_i_type = nondet_int(); xv_ctl_i_len = nondet_size_t(); xv_ctl_i_val_j = nondet_uchar(); xv_ctl_i_name_j = nondet_char();
+    xv_ctl_i_type = nondet_int(); xv_ctl_i_len = nondet_size_t(); xv_ctl_i_val_mc = nondet_uchar(); xv_ctl_i_namelen = nondet_size_t(); xv_ctl_i_name_j = nondet_char();
 }
 #endif
 
@@ -165,6 +198,27 @@ size_t strlen(const char *src)
 #pragma CPROVER check pop
     __CPROVER_assume(src[n] == 0 || n == lim);
     XV_ASSERT(src[n] == 0, "strlen model: string terminated inside its object and within 95 characters");
+    return n;
+}
+
+/* strnlen(3), TRUSTED(libc): loop-free, same scheme; inspects at most maxlen (<= 96) bytes, all of which must be readable
+ * up to and including the terminator (a repaired process_get_attr has to look for the terminator of the wire name) */
+size_t strnlen(const char *src, size_t maxlen)
+{
+    XV_ASSERT(maxlen <= XV_STRCPY_MAX + 1, "strnlen model: maxlen <= 96");
+    size_t n = nondet_size_t();
+    __CPROVER_assume(n <= maxlen);
+    XV_ASSERT(n == 0 || __CPROVER_r_ok(src, n), "strnlen model: bytes before the result readable");
+#pragma CPROVER check push
+#pragma CPROVER check disable "pointer"
+#pragma CPROVER check disable "pointer-overflow"
+#pragma CPROVER check disable "bounds"
+    __CPROVER_assume(XV_SC96(src, n));
+#pragma CPROVER check pop
+    if (n < maxlen) {
+        XV_ASSERT(__CPROVER_r_ok(src, n + 1), "strnlen model: terminator readable");
+        __CPROVER_assume(src[n] == 0);
+    }
     return n;
 }
 
@@ -320,5 +374,84 @@ void ctl_derive_path(const char *ctl_dir, pid_t creator_pid, int64_t sock_ref, c
     if (n > 0) __CPROVER_havoc_slice(buf, n);
     buf[n] = '\0';
 }
+
+
+/* ------------------------------------------------------------------ xcm_attr_get_all (libxcm/core/xcm.c), TRUSTED(xcm_attr_get_all)
+ * Calls cb ANY number of times (loop closed by the invariant below, no bound), each time with an ARBITRARY name of
+ * 0..XV_CTL_NAME_OBJ-1 characters, ARBITRARY type, ARBITRARY value of 0..XV_CTL_LEN_MAX bytes (heap buffers.  May leave any errno.  Ghosts: xv_ctl_all_n counts the reportable
+ * attributes, xv_ctl_i_* records the xv_ctl_i-th of them.
+ * The invariant speaks about the reply under construction, so this stub is specific to the one call in ctl.c
+ * (cb == add_attr, cb_data == the get_all_attr_cfm being filled, attrs_len == 0 on entry -- asserted). */
+#define XV_CTL_ALL_GHOSTS xv_errno, xv_ctl_all_calls, xv_ctl_all_n, xv_ctl_i_type, xv_ctl_i_len, xv_ctl_i_val_mc, xv_ctl_i_name_j, xv_ctl_i_namelen, \
+                          xv_ctl_g_len0, xv_ctl_g_namelen, xv_ctl_g_len
+#ifndef XV_DBG_LEVEL
+#define XV_DBG_LEVEL 3
+#endif
+#if XV_DBG_LEVEL == 0
+#define XV_CTL_ALL_ENTRY_I(cfm) 1
+#elif XV_DBG_LEVEL == 1
+#define XV_CTL_ALL_ENTRY_I(cfm) (xv_ctl_i < (cfm)->attrs_len ==> ( \
+        (int)(cfm)->attrs[xv_ctl_i].value_type == xv_ctl_i_type && (cfm)->attrs[xv_ctl_i].value_len == xv_ctl_i_len && \
+        xv_ctl_i_len <= CTL_ATTR_VALUE_MAX && xv_ctl_i_namelen < XCM_ATTR_NAME_MAX))
+#elif XV_DBG_LEVEL == 2
+#define XV_CTL_ALL_ENTRY_I(cfm) (xv_ctl_i < (cfm)->attrs_len ==> ( \
+        (int)(cfm)->attrs[xv_ctl_i].value_type == xv_ctl_i_type && (cfm)->attrs[xv_ctl_i].value_len == xv_ctl_i_len && \
+        xv_ctl_i_len <= CTL_ATTR_VALUE_MAX && xv_ctl_i_namelen < XCM_ATTR_NAME_MAX && \
+        (xv_mc < xv_ctl_i_len ==> (cfm)->attrs[xv_ctl_i].any_value[xv_mc] == xv_ctl_i_val_mc)))
+#else
+#define XV_CTL_ALL_ENTRY_I(cfm) (xv_ctl_i < (cfm)->attrs_len ==> ( \
+        (int)(cfm)->attrs[xv_ctl_i].value_type == xv_ctl_i_type && (cfm)->attrs[xv_ctl_i].value_len == xv_ctl_i_len && \
+        xv_ctl_i_len <= CTL_ATTR_VALUE_MAX && xv_ctl_i_namelen < XCM_ATTR_NAME_MAX && \
+        (xv_mc < xv_ctl_i_len ==> (cfm)->attrs[xv_ctl_i].any_value[xv_mc] == xv_ctl_i_val_mc) && \
+        (xv_ctl_j <= xv_ctl_i_namelen ==> (cfm)->attrs[xv_ctl_i].name[xv_ctl_j] == xv_ctl_i_name_j) && \
+        (cfm)->attrs[xv_ctl_i].name[xv_ctl_i_namelen] == 0))
+#endif
+/* the generated pointer/bounds checks are switched off inside this stub (as in contract text, contracts/begin.h): its
+ * accesses are to its own buffers and, in the invariant, to the reply object whose validity the caller's contract states */
+#include "contracts/begin.h"
+void xcm_attr_get_all(struct xcm_socket *s, xcm_attr_cb cb, void *cb_data)
+{
+    struct ctl_proto_get_all_attr_cfm *cfm = cb_data;
+    XV_ASSERT(cfm->attrs_len == 0, "xcm_attr_get_all stub: reply table empty on entry");
+    xv_ctl_all_calls++;
+    xv_ctl_all_n = 0;
+    /* the name and value buffers are allocated once (DFCC forbids allocation inside a loop under contract) and get new
+     * arbitrary content in every round; the callback sees them as objects of XV_CTL_NAME_OBJ / XV_CTL_LEN_MAX bytes */
+    char *name = malloc(XV_CTL_NAME_OBJ + (size_t)xv_ctl_z);
+    uint8_t *value = malloc(XV_CTL_LEN_MAX + (size_t)xv_ctl_z);
+    __CPROVER_assume(name != NULL && value != NULL);
+    while (nondet_bool())
+    __CPROVER_assigns(xv_ctl_all_n, xv_ctl_i_type, xv_ctl_i_len, xv_ctl_i_val_mc, xv_ctl_i_name_j, xv_ctl_i_namelen, xv_ctl_g_len0, xv_ctl_g_namelen, xv_ctl_g_len, \
+                      __CPROVER_object_whole(name), __CPROVER_object_whole(value), \
+                      __CPROVER_object_upto(cb_data, XV_CTL_SIZEOF(struct ctl_proto_get_all_attr_cfm)))
+    __CPROVER_loop_invariant(xv_ctl_all_n < (1UL << 40) && cfm->attrs_len == (xv_ctl_all_n < CTL_PROTO_MAX_ATTRS ? xv_ctl_all_n : CTL_PROTO_MAX_ATTRS))
+    __CPROVER_loop_invariant(XV_CTL_ALL_ENTRY_I(cfm))
+    {
+        size_t namelen = nondet_size_t(), len = nondet_size_t();
+        __CPROVER_assume(namelen < XV_CTL_NAME_OBJ && len <= XV_CTL_LEN_MAX && xv_ctl_all_n < (1UL << 40) - 1);
+        __CPROVER_havoc_slice(name, XV_CTL_NAME_OBJ + (size_t)xv_ctl_z);
+        __CPROVER_havoc_slice(value, XV_CTL_LEN_MAX + (size_t)xv_ctl_z);
+#pragma CPROVER check push
+#pragma CPROVER check disable "pointer"
+#pragma CPROVER check disable "pointer-overflow"
+#pragma CPROVER check disable "bounds"
+        __CPROVER_assume(XV_SC96(name, namelen));
+#pragma CPROVER check pop
+        name[namelen] = 0;
+        int type = nondet_int();
+        if (AA_REPORTABLE(name, namelen, len)) {
+            if (xv_ctl_all_n == xv_ctl_i) {
+                xv_ctl_i_type = type; xv_ctl_i_len = len; xv_ctl_i_namelen = namelen;
+                if (xv_mc < len) xv_ctl_i_val_mc = value[xv_mc];
+                if (xv_ctl_j <= namelen) xv_ctl_i_name_j = name[xv_ctl_j];
+            }
+            xv_ctl_all_n++;
+        }
+        xv_ctl_g_len0 = cfm->attrs_len; xv_ctl_g_namelen = namelen; xv_ctl_g_len = len;
+        cb(name, (enum xcm_attr_type)type, value, len, cb_data);
+    }
+    if (nondet_bool()) xv_errno = nondet_int();
+}
+#include "contracts/end.h"
 
 #endif
